@@ -282,7 +282,7 @@ func PureBoolDef(e ast.Expr) ast.Expr {
 	if f == nil {
 		return nil
 	}
-	root := f.Root()
+	root := f.SynRoot()
 	if v.Pos() < root.Body.Pos() {
 		return nil // parameter or named result
 	}
